@@ -206,11 +206,14 @@ pub fn gen_case(ch: &mut Chooser, which: &str) -> Case {
         }
         "map" | "for-each" if ch.chance(1, 3) => {
             // several lists of different lengths: the shortest decides; the procedure takes one argument per list
-            let k = 2 + ch.below(2);
-            let lists: Vec<Datum> = (0..k).map(|_| int_list(ch)).collect();
+            let k = 2 + ch.below(3);
+            let fsel = ch.below(3);
+            // `+` needs numbers; `list` and the ticking procedure take any element (nested and improper-free data too)
+            let any_data = fsel != 0 && ch.chance(1, 2);
+            let lists: Vec<Datum> = (0..k).map(|_| if any_data && ch.chance(2, 3) { list_data(ch, 2, false, false) } else { int_list(ch) }).collect();
             c.nontrivial = lists.iter().map(len_of).min().unwrap_or(0) >= 1;
             let names: Vec<String> = (0..k).map(|i| format!("e{}", i)).collect();
-            let f = match ch.below(3) {
+            let f = match fsel {
                 0 => var("+"),
                 1 => var("list"),
                 _ => Expr::Lambda(
